@@ -51,7 +51,8 @@ let join_lf (ls : bytes list) : bytes =
 
 (* Q for C01/C03 on any produced redactable; ls = whether raw inputs were line-safe *)
 let q_redactable0 (what : string) (s : bytes) (ls : bool) : fail list =
-  q "C01" (is_wf s && is_closed s) (fun () -> what ^ " not well-formed: " ^ hb s)
+  q "C01" (is_wf s) (fun () -> what ^ " not well-formed: " ^ hb s)
+  @ q "closure" (mcl (lex s)) (fun () -> what ^ " a marker follows a proper marker prefix (not marker-closed): " ^ hb s)
   @ (if ls then q "C03" (is_linesafe s) (fun () -> what ^ " envelope spans a line feed: " ^ hb s) else [])
   @ (if ls && is_wf s && is_linesafe s then
        let lines = split_lf s in
